@@ -350,6 +350,15 @@ func (r *Raft) restore() error {
 		if err := file.Close(); err != nil {
 			return fmt.Errorf("could not close snapshot file: %w", err)
 		}
+
+		// A crash may have occurred after a received snapshot was saved but before the log was
+		// discarded. A log that ends before the snapshot or conflicts with it is replaced by it.
+		entry, _ := r.log.GetEntry(r.lastIncludedIndex)
+		if r.log.LastIndex() < r.lastIncludedIndex || (entry != nil && entry.Term != r.lastIncludedTerm) {
+			if err := r.log.DiscardEntries(r.lastIncludedIndex, r.lastIncludedTerm); err != nil {
+				return fmt.Errorf("could not discard log entries: %w", err)
+			}
+		}
 	}
 
 	// Use the most recent configuration from the log.
